@@ -83,6 +83,8 @@ def rule_a(ctx: Ctx) -> None:
                     or name in ('OpenerDirector', 'pathname2url', 'url2pathname')
                 if m.name == 'xmlschema.cli' and name == 'URLError':
                     allowed = True
+                if name.endswith(('Error', 'Exception')) or name in ('InvalidURL', 'IncompleteRead'):
+                    allowed = True      # an exception class opens nothing (needed to convert what the opener raises, C11.m)
                 ctx.ob(rule, f'{m.name} imports {target}', f'{m.relpath}:1', allowed,
                        '' if allowed else 'network machinery imported outside the resource owner', key=f'{m.name}|import|{target}')
     # fetch_resource is not called from inside the package
